@@ -33,6 +33,7 @@ type Evaluator struct {
 	endRules       []*Rule
 	endFileRules   []*Rule
 	fuzzing        bool
+	nesting        int
 }
 
 var (
@@ -45,6 +46,12 @@ var (
 
 var fuzzingLoopLimit = 10000
 var callDepthLimit = 4096
+
+// the call depth limit alone does not bound the Go stack: every active call
+// can itself be nested as deeply as the program text allows. nestingLimit
+// bounds the nesting of statement and expression evaluation across all active
+// calls; the Go stack (at most 512 MB) holds nearly twice as much
+var nestingLimit = 150000
 
 func NewEvaluator(prog Program, lexer *Lexer, stdout io.Writer) Evaluator {
 	e := Evaluator{
@@ -216,6 +223,12 @@ func (e *Evaluator) evalString(str string) (*Cell, error) {
 }
 
 func (e *Evaluator) evalExpr(expr Expr) (*Cell, error) {
+	if e.nesting >= nestingLimit {
+		return nil, e.error(expr.Token(), "evaluation nested too deeply")
+	}
+	e.nesting++
+	defer func() { e.nesting-- }()
+
 	switch exp := expr.(type) {
 	case *ExprLiteral:
 		switch exp.token.Tag {
@@ -877,6 +890,12 @@ func (e *Evaluator) evalExprList(exprs []Expr, copy bool) ([]*Cell, error) {
 
 func (e *Evaluator) evalStatement(stmt Statement) error {
 	verifStep()
+	if e.nesting >= nestingLimit {
+		return e.error(stmt.Token(), "evaluation nested too deeply")
+	}
+	e.nesting++
+	defer func() { e.nesting-- }()
+
 	switch st := stmt.(type) {
 	case *StatementBlock:
 		for _, s := range st.Body {
